@@ -299,6 +299,41 @@ func runChild(c *cli.Ctx) error {
 				raceViolations++
 			}
 		}
+		// --- a summary without objectives whose observations sum to exactly +0: repeated collections must return
+		{
+			zs := prometheus.NewSummary(prometheus.SummaryOpts{Name: "zero_sum"})
+			for _, v := range []float64{0, 0, 2.5, -2.5} {
+				zs.Observe(v)
+			}
+			doneZ := make(chan bool, 1)
+			go func() {
+				ok := true
+				for i := 0; i < 3; i++ {
+					var m dto.Metric
+					zs.Write(&m)
+					ok = ok && m.Summary.GetSampleCount() == 4 && m.Summary.GetSampleSum() == 0
+					zs.Observe(0)
+					zs.Observe(0)
+					var m2 dto.Metric
+					zs.Write(&m2)
+					ok = ok && m2.Summary.GetSampleCount() == 6
+					zs = prometheus.NewSummary(prometheus.SummaryOpts{Name: "zero_sum"})
+					for _, v := range []float64{0, 0, 2.5, -2.5} {
+						zs.Observe(v)
+					}
+				}
+				doneZ <- ok
+			}()
+			select {
+			case ok := <-doneZ:
+				if !ok {
+					raceViolations++
+				}
+			case <-time.After(5 * time.Second):
+				atomic.AddInt64(&panics, 1)
+				panicMsg.Store("repeated Write of a summary without objectives whose observations sum to 0 does not return")
+			}
+		}
 		// --- ToFloat64 on a vector with three or more children: the documented panic, never a hang; the vector stays usable
 		{
 			tv := prometheus.NewCounterVec(prometheus.CounterOpts{Name: "tf"}, []string{"a"})
